@@ -2,7 +2,6 @@ import PolyVerif.Model.GenbankBuild
 import PolyVerif.Spec.GbStrict
 import PolyVerif.Lemmas.GbBuild
 import PolyVerif.Lemmas.GbCompose
-import PolyVerif.Lemmas.GbRoundTrip
 /-
 C03 — GenBank write-then-read is the identity; writing is deterministic; the written text
 follows the flat-file layout.
@@ -85,13 +84,17 @@ def WFLayout (x : Sequence) : Prop := wfLayout x = true
 
 instance (x : Sequence) : Decidable (WFLayout x) := by unfold WFLayout; infer_instance
 
-/-- **Layout clause.**  For every record of the layout domain and every map iteration order, the
+/-- **Layout clause** (`_partial`: the full clause is over the judge's domain `wfLayoutJ`, which also
+holds records with runs of blanks in metadata and name-less records; those two classes are the
+known findings `C03-blank-run-at-wrap` and `C03-nameless-locus`, with the witnesses below, and
+`WFLayout` excludes them — it demands single-spaced metadata, which is more than "no run of blanks
+at a wrap point").  For every record of the layout domain and every map iteration order, the
 independent strict column reader (keyword = columns 1-12, continuation ⇔ 12 leading blanks, feature
 key in columns 6-20 / location from column 22, qualifier `/k="v"` at column 22, ORIGIN counter in
 columns 1-9 then groups of 10, terminator `//`) recovers exactly `abs x` from the text `Build`
 writes — with metadata wrapped over any number of lines, any number of references, extra blocks,
 features and qualifiers, cached or structural locations, and a sequence of any length below 10^9. -/
-theorem build_strict_layout (x : Sequence) (o : MapOrders) (h : WFLayout x) :
+theorem build_strict_layout_partial (x : Sequence) (o : MapOrders) (h : WFLayout x) :
     strictRead (build x o) = some (abs x) := by
   rw [build_deterministic x o MapOrders.id]
   exact PolyVerif.Lemmas.GbCompose.strict_layout_id x h
@@ -127,49 +130,48 @@ example :
     let x : Sequence := { exampleRecord with metadata := { exampleRecord.metadata with other := [("ABCDEFGHIJKLM".toList, "v".toList)] } }
     ¬ WFLayout x ∧ strictRead (build x {}) ≠ some (abs x) := by decide
 
-/-! ### write-then-read over the parser model of property C01
+/-! ### known findings: kernel-checked witnesses -/
 
-Full statement (the property's clause):
+/-- 68 columns of words, then TWO blanks, then more words: the run falls on the wrap point -/
+def blankRunText : Str :=
+  "abcdefghi abcdefghi abcdefghi abcdefghi abcdefghi abcdefghi bbbbbbb  tail words".toList
 
-    parse_build : WFSeq x → ∃ y, Genbank.parse (build x o) = .ok y ∧ y ≈ x          (WFSeq x := wfSeq x = true)
+def blankRunRecord : Sequence :=
+  { metadata := { locus := { name := "x".toList }, definition := blankRunText }, sequence := "acgt".toList }
 
-Proved below as `parse_build_partial` under the stronger, decidable hypothesis `covered x`
-(Spec/GbRoundTrip.lean): `wfSeq x` AND the record is one that C01's abstract record type `GbRec`
-expresses (molecule type DNA / mRNA / tRNA / rRNA, exactly one topology, a division, a date with a
-real month, the LOCUS length equal to the number of bases, extra keywords of ≤ 10 capitals,
-qualifier keys over `[a-z0-9_]`, values without quotation marks, … = `GbLayout.wf (toRec x)`) AND
-every REFERENCE line has a range and fits on one line.  What is missing for the full statement is
-on the C01 side (its composition theorem `parseLoop_layout` is stated for `GbRec`, which has no
-empty locus fields, eight fewer molecule types, …) plus the wrapped REFERENCE line; on those
-records the clause rests on the correspondence check (the REAL `Parse(Build(x)) ≈ x` is judged on
-every case, and the parser MODEL is compared with the real parser on every written text). -/
+/-- `C03-blank-run-at-wrap`, on the text: printable, no blank at either end, yet wrap-then-join loses a blank -/
+theorem blank_run_at_wrap_witness :
+    ¬ (∀ t : Str, textJ t = true → joinSp (splitChar '\n' (wrapString t 68)) = t) := by
+  intro h
+  exact absurd (h blankRunText (by decide)) (by decide)
 
-open PolyVerif.Spec.GbRoundTrip in
-/-- **Write-then-read (partial).**  For every covered record and every map iteration order the
-parser model accepts the text `Build` writes and returns the record the writer was given: same
-sequence, locus, metadata, references (numbered by position), extra blocks, and per feature the
-same key, the same location text (cached, else `BuildLocationString` of the structure) and the
-same qualifier map.  Metadata of any length (wrapped by `WrapString` wherever it breaks), any
-number of features / qualifiers / references / blocks, any sequence length < 10^8. -/
-theorem parse_build_partial (x : Sequence) (o : MapOrders) (h : covered x = true) :
-    ∃ y, Genbank.parse (build x o) = .ok y ∧ approx x y = true :=
-  ⟨_, PolyVerif.Lemmas.GbRoundTrip.parse_build_covered x o h, PolyVerif.Lemmas.GbRoundTrip.approx_covered x h⟩
+/-- … and on the record: it is in the judge's layout domain, the independent reader does NOT recover it
+from what `Build` writes, it recovers exactly what the finding predicts -/
+theorem blank_run_at_wrap_record_witness :
+    wfLayoutJ blankRunRecord = true ∧ clsBlankRun blankRunRecord = true
+      ∧ strictRead (build blankRunRecord {}) ≠ some (abs blankRunRecord)
+      ∧ strictRead (build blankRunRecord {}) = some (abs (expectedBack blankRunRecord)) := by
+  decide +kernel
 
-/-- a covered record: wrapped definition, a reference, an extra block, two features -/
-def coveredRecord : Sequence :=
-  { exampleRecord with
-    metadata := { exampleRecord.metadata with
-      locus := { exampleRecord.metadata.locus with moleculeType := "DNA".toList },
-      keywords := ".".toList },
-    features :=
-      [ { type := "CDS".toList,
-          sequenceLocation := { join := true, subs := [{ start := 0, stop := 10, five := true }, { start := 20, stop := 30, complement := true }] },
-          attributes := [("product".toList, "beta lactamase".toList), ("gene".toList, "bla".toList)] },
-        { type := "misc_feature".toList, gbkLocationString := "complement(5..>60)".toList,
-          sequenceLocation := { start := 4, stop := 60, complement := true, three := true } } ] }
+/-- `C03-nameless-locus`: a record assembled without a locus name is in the judge's domain and is not
+recovered (the LOCUS line `LOCUS            4 bp …` is read one token to the left) -/
+theorem nameless_locus_witness :
+    let x : Sequence := { metadata := { locus := { sequenceLength := "4".toList } }, sequence := "acgt".toList }
+    wfLayoutJ x = true ∧ strictRead (build x {}) ≠ some (abs x) := by
+  decide +kernel
 
-open PolyVerif.Spec.GbRoundTrip in
-/-- non-vacuity of `parse_build_partial` -/
-example : covered coveredRecord = true := by decide +kernel
+theorem buildReferences_ignores_index (g : Reference → Str) : ∀ (refs : List Reference) (i : Nat),
+    buildReferences i (refs.map fun r => { r with index := g r }) = buildReferences i refs
+  | [], _ => rfl
+  | r :: rs, i => by
+    simp only [List.map_cons, buildReferences, buildReferences_ignores_index g rs (i + 1)]
+
+/-- `C03-reference-number`: `Build` never reads `Reference.Index` — two records that differ only in
+their reference numbers are written to the same text, so no reader can give both back -/
+theorem reference_number_witness (x : Sequence) (g : Reference → Str) (o : MapOrders) :
+    build { x with metadata := { x.metadata with references := x.metadata.references.map fun r => { r with index := g r } } } o
+      = build x o := by
+  unfold build
+  simp only [buildReferences_ignores_index]
 
 end PolyVerif.Props.C03
